@@ -463,9 +463,8 @@ func (g *gen) genSliceOfChan(typs []types.Type) error {
 	p.P("func %s(in []%schan %s) <-chan %s {", name, dirStr, typStr, typStr)
 	p.In()
 	p.P("out := make(chan %s)", typStr)
-	p.P("go func() {")
-	p.In()
-	p.P("wait := %s.WaitGroup{}", g.syncPkg())
+	// The listeners are started before the function returns: the list belongs to the caller, who may change it afterwards.
+	p.P("wait := &%s.WaitGroup{}", g.syncPkg())
 	p.P("listening := make(map[%schan %s]bool, len(in))", dirStr, typStr)
 	p.P("for _, c := range in {")
 	p.In()
@@ -490,6 +489,8 @@ func (g *gen) genSliceOfChan(typs []types.Type) error {
 	p.P("}()")
 	p.Out()
 	p.P("}")
+	p.P("go func() {")
+	p.In()
 	p.P("wait.Wait()")
 	p.P("close(out)")
 	p.Out()
